@@ -656,16 +656,17 @@ def vectors_stage(prop, seed):
     """Golden vectors recorded from the pinned release verify and recover the recorded masks on the current tree."""
     st = StageResult("rp:golden-vectors")
     t0 = time.time()
-    vf = os.path.join(vlib.VERIF, "vectors", "golden_0.4.0.json")
-    out = json.loads(vlib.run_harness(["vectors", "--file", vf], timeout=1800))
-    st.evaluations += out["checked"]
-    st.traces += out["checked"]
-    vec = json.load(open(vf))
-    for v in vec:
-        st.distinct.add(f"{v['bits']}/{v['aggregation']}/{v['capacity']}/{v['degree']}/{v['seed'] is not None}")
-    st.samples.append({k: vec[0][k] for k in ("bits", "aggregation", "capacity", "degree", "label")})
-    for mm in out["mismatches"]:
-        st.add_violation(f"[golden vectors] {mm}", {"kind": "vectors", "seed": seed, "message": mm})
+    for name in ("golden_0.4.0.json", "golden_0.4.0_special.json"):
+        vf = os.path.join(vlib.VERIF, "vectors", name)
+        out = json.loads(vlib.run_harness(["vectors", "--file", vf], timeout=1800))
+        st.evaluations += out["checked"]
+        st.traces += out["checked"]
+        vec = json.load(open(vf))
+        for v in vec:
+            st.distinct.add(f"{v['bits']}/{v['aggregation']}/{v['capacity']}/{v['degree']}/{v['seed'] is not None}/{v.get('kind', '')}")
+        st.samples.append({k: vec[0][k] for k in ("bits", "aggregation", "capacity", "degree", "label")})
+        for mm in out["mismatches"]:
+            st.add_violation(f"[golden vectors] {mm}", {"kind": "vectors", "seed": seed, "message": mm})
     st.wall = time.time() - t0
     return st
 
